@@ -41,6 +41,10 @@ CLAIMED = {
    text='TLC checks on all pairs and thirds of a small scope that the content predicate (SFEquals) is reflexive, symmetric and transitive and that the as-built block comparison (== plus the both-missing mask) refines it; the negative control with the left mask combined with itself (the defect repaired on this tree) violates symmetry (MC_C10); every enumerated pair is replayed as Series and as Frame in both directions; families of single-point mutants of random containers (cell, label, dtype, name, class, NaN/None, shape, layout) are compared by the real code and TLC (Trace_C10) checks the recorded equals matrix (reflexive, symmetric, transitive, = predicate under the options) and, for HE variants, ==, !=, hash and set behaviour.',
    ref='DESIGN.md section 4 (C10)', note='a.equals(a) is True by identity even with NaN and skipna=False: the diagonal is only required to be True. Bus and IndexHierarchy equals are covered through Frames with hierarchical labels only.',
    technique='TLA+ spec SFEquals model checked with TLC; state dump replayed into the code; recorded comparison matrices validated by a TLC trace spec'),
+ 'C11': dict(
+   text='TLC checks that the dictionary-style reference concatenation meets the declarative statement (concat-axis labels = inputs labels in input order; aligned axis = union / intersection; each cell is the cell of the input that owns its row, fill where that input lacks the label), conserves cells and rejects duplicate concat labels, for every choice of aligned labels of a small scope (MC_C11); every enumerated case is replayed on real Frames on random layouts; recorded random from_concat / from_concat_items / Series.from_concat / from_overlay calls (1-4 inputs, overlapping / permuted / equal labels, fill values, auto index, generator inputs, both axes, all vstack strategies through random layouts) are validated by TLC (Trace_C11).',
+   ref='DESIGN.md section 4 (C11)', note='Values and labels are compared numerically (an empty float64 input index turns int labels into equal floats).',
+   technique='TLA+ spec SFConcat model checked with TLC; state dump replayed into the code; recorded results validated by a TLC trace spec'),
 }
 REASON_TODO = 'not yet built in this round: the specification module for this property is still being written (see DESIGN.md section 9)'
 ALL = ['C%02d' % i for i in range(1, 21)]
